@@ -173,7 +173,8 @@ def app_rows(V, tier, seed):
         overlap = rr.add_noon_2017_overlap(rng, cal) if y - 1 <= 2017 <= y else None
         today = datetime.date(y + 1, 3, 1)
         kind = rng.choice(["usd_norate", "usd_norate", "usd_comm_norate", "usd_explicit", "cad_rate_1", "cad_rate_bad", "eur_norate", "eur_rate",
-                           "usd_td_vs_sd", "usd_jan1"])
+                           "usd_td_vs_sd", "usd_jan1", "fx_trade_cad_comm_norate", "fx_trade_cad_comm_rate1", "fx_trade_cad_comm_bad",
+                           "fx_trade_eur_comm_norate", "fx_trade_eur_comm_rate", "usd_trade_usd_comm_own_rate"])
         td = datetime.date(y, rng.randint(1, 12), rng.randint(1, 28))
         if kind == "usd_jan1":
             td = datetime.date(y, 1, rng.choice([1, 2, 3]))
@@ -203,6 +204,30 @@ def app_rows(V, tier, seed):
         elif kind == "eur_norate":
             row["cur"] = "EUR"
             exp["error"] = True
+        elif kind.startswith("fx_trade_") or kind == "usd_trade_usd_comm_own_rate":
+            # the commission has its own currency column: the same three rules apply to it, independently of the trade's currency
+            row["cur"] = rng.choice(["USD", "EUR"]) if kind != "usd_trade_usd_comm_own_rate" else "USD"
+            row["fx"] = gen.rand_dec(rng, 1, 2, 4)
+            row["comm"] = gen.rand_dec(rng, 1, 20, 2)
+            exp["comm_cell"] = True
+            if kind == "fx_trade_cad_comm_norate":
+                row["ccur"] = "CAD"
+                exp["rate"] = Fraction(1)
+            elif kind == "fx_trade_cad_comm_rate1":
+                row["ccur"], row["cfx"] = "CAD", rng.choice(["1", "1.0"])
+                exp["rate"] = Fraction(1)
+            elif kind == "fx_trade_cad_comm_bad":
+                row["ccur"], row["cfx"] = "CAD", rng.choice(["1.5", "0.99", "1.0001"])
+                exp["error"] = True
+            elif kind == "fx_trade_eur_comm_norate":
+                row["ccur"] = "GBP"
+                exp["error"] = True
+            elif kind == "fx_trade_eur_comm_rate":
+                row["ccur"], row["cfx"] = "GBP", gen.rand_dec(rng, 1, 2, 4)
+                exp["rate"] = Fraction(row["cfx"])
+            else:
+                row["ccur"], row["cfx"] = "USD", gen.rand_dec(rng, 1, 2, 4)
+                exp["rate"] = Fraction(row["cfx"])
         else:
             row["cur"] = "EUR"
             row["fx"] = gen.rand_dec(rng, 1, 2, 4)
@@ -240,15 +265,15 @@ def app_rows(V, tier, seed):
             else:
                 t = r["tables"]["FOO"]
                 col = {h: i for i, h in enumerate(t["header"])}
-                cellname = "Commission" if exp["kind"] == "usd_comm_norate" else "Amount"
+                cellname = "Commission" if (exp["kind"] == "usd_comm_norate" or exp.get("comm_cell")) else "Amount"
                 cell = t["rows"][0][col[cellname]]
                 local = ref.first_money(cell)
-                base = Fraction(row["comm"]) if exp["kind"] == "usd_comm_norate" else Fraction(row["shares"]) * Fraction(row["aps"])
+                base = Fraction(row["comm"]) if (exp["kind"] == "usd_comm_norate" or exp.get("comm_cell")) else Fraction(row["shares"]) * Fraction(row["aps"])
                 want = base * want_rate
                 if abs(local - want) > Fraction(1, 10 ** 12) * max(1, want):
                     f = {"what": "converted amount does not use the rate the statement prescribes", "kind": exp["kind"], "cell": cell,
                          "expected_local": str(want), "expected_rate": str(want_rate), "row": row}
-        if exp["kind"] in ("usd_jan1", "usd_td_vs_sd", "usd_comm_norate"):
+        if exp["kind"] in ("usd_jan1", "usd_td_vs_sd", "usd_comm_norate") or exp.get("comm_cell"):
             V.nontriv((cid, "app"))
         if f:
             V.violation("%s" % json.dumps(f)[:500], {"kind": "approw", "prop": PROP, "case": [c for c in cases if c["id"] == cid][0], "exp_kind": exp["kind"]},
